@@ -32,14 +32,26 @@ PROPS = {
         ],
     },
     "C19": {
-        "units": ["break"],
-        "level": "proof",
-        "property_obligations": ["lemma_break_cl", "lemma_break_ht", "lemma_break_len", "lemma_forall_distrib"],
+        "units": ["break", "problem"],
+        "level": "other",
+        "property_obligations": ["lemma_break_cl", "lemma_break_ht", "lemma_break_len", "lemma_forall_distrib",
+                                 "Problem::decompose", "Problem::decompose_independent", "Problem::decompose_sequential", "Problem::axioms", "Problem::conjectures",
+                                 "lemma_independent_sound", "lemma_sequential_sound", "lemma_chain", "lemma_not_refuted", "lemma_single", "lemma_by_role_mem"],
         "carriers": ["break_equivalences_formula", "Formula::quantify", "Formula::unbox", "UnboxedFormula::rebox"],
-        "explanation": "eq-break half of C19: Verus proves that the real break_equivalences_formula (with the real unbox/rebox/quantify) returns "
-                       "spec_break(F), and that the family spec_break(F) is satisfied by exactly the interpretations and assignments that satisfy F, "
-                       "classically and in here-and-there (both worlds), for every formula (equivalences under any universal prefix).",
-        "assumptions": [],
+        "explanation": "eq-break: Verus proves that the real break_equivalences_formula (with the real unbox/rebox/quantify) returns spec_break(F), and that the family spec_break(F) is satisfied by exactly the "
+                       "interpretations and assignments that satisfy F, classically and in here-and-there (both worlds), for every formula (equivalences under any universal prefix). "
+                       "Decomposition: Verus proves on the real Problem::decompose / decompose_independent / decompose_sequential (with the real axioms()/conjectures(); iterator chains desugared by rules D21/D22) that the "
+                       "i-th emitted problem consists of the axioms and the i-th conjecture (independent), resp. the axioms, the earlier conjectures re-labelled as axioms, and the i-th conjecture (sequential), with "
+                       "name <name>_<i> and the same interpretation; and lemma_independent_sound / lemma_sequential_sound prove, for ANY notion of truth of formulas in a fixed interpretation, that the interpretation "
+                       "refutes the original problem iff it refutes one of the emitted problems — so neither flag changes what is claimed. "
+                       "NOT decided: the simplify flag (= C07 for the portfolios; the choice of portfolio per stage in the decompose functions of the tasks is not under contract).",
+        "assumptions": [
+            "D21/D22: `.into_iter().enumerate().map(|(i, c)| ..).collect_vec()` and `.iter().filter(|f| ..).cloned().collect_vec()` are desugared to explicit loops (sequential in-order evaluation documented for Iterator::map/filter/collect); "
+            "itertools::collect_vec = collect::<Vec<_>>",
+            "T8/D6: format! with bare placeholders = concatenation of Display renderings",
+            "which simplification portfolio is applied at which stage (task decompose functions): NOT verified",
+        ],
+        "not_covered": ["portfolio choice in StrongEquivalenceTask::decompose / ExternalEquivalenceTask::decompose"],
     },
     "C10": {
         "units": ["prover"],
@@ -154,18 +166,22 @@ PROPS = {
     "C09": {
         "units": ["problem"],
         "level": "other",
-        "property_obligations": ["Problem::create_unique_formula_names", "lemma_unique_names", "Problem::add_theory"],
+        "property_obligations": ["Problem::create_unique_formula_names", "lemma_unique_names", "Problem::add_theory",
+                                 "Problem::decompose", "Problem::decompose_independent", "Problem::decompose_sequential", "Problem::axioms", "Problem::conjectures"],
         "carriers": [],
-        "explanation": "Only the 'formula names are unique' clause of C09 is decided: Verus proves on the real Problem::create_unique_formula_names that the i-th name is formula_{i}_{old name}, "
-                       "roles and formulas are kept in order, and any two positions get different names whatever the old names are (decimal numerals are digit strings and injective). Problem::add_theory is proved to "
-                       "append the annotated formulas in order with their own indices. NOT decided: declarations and typing (they exist only as text written by Display for Problem through core::fmt), "
-                       "rename_conflicting_symbols (iterator filter: completeness not derivable in this Verus), add_annotated_formulas (generic IntoIterator), one-conjecture-per-problem (decompose_*: enumerate inside map closures).",
+        "explanation": "Two clauses of C09 are decided. (1) Formula names are unique: Verus proves on the real Problem::create_unique_formula_names that the i-th name is formula_{i}_{old name}, "
+                       "roles and formulas are kept in order, and any two positions get different names whatever the old names are (decimal numerals are digit strings and injective); Problem::add_theory is proved to "
+                       "append the annotated formulas in order with their own indices. (2) Exactly one conjecture per emitted problem, after the axioms: Verus proves on the real decompose / decompose_independent / "
+                       "decompose_sequential that the i-th problem is the axioms (plus, sequentially, the earlier conjectures re-labelled axiom) followed by the single i-th conjecture. "
+                       "NOT decided: declarations and typing (they exist only as text written by Display for Problem through core::fmt), "
+                       "rename_conflicting_symbols (iterator filter: completeness not derivable in this Verus), add_annotated_formulas (generic IntoIterator).",
         "assumptions": [
             "T8/D6: format! with bare placeholders = concatenation of Display renderings; Display of usize is its decimal numeral (digits only, injective)",
+            "D21/D22 desugaring of the iterator chains in axioms/conjectures/decompose_* (see C19)",
             "declarations/typing clauses of C09: NOT covered (fmt code)",
-            "Problem::rename_conflicting_symbols, add_annotated_formulas, decompose_independent/sequential: NOT verified",
+            "Problem::rename_conflicting_symbols, add_annotated_formulas: NOT verified",
         ],
-        "not_covered": ["Display for Problem (declarations, types)", "rename_conflicting_symbols", "add_annotated_formulas", "decompose_*"],
+        "not_covered": ["Display for Problem (declarations, types)", "rename_conflicting_symbols", "add_annotated_formulas"],
     },
     "C11": {
         "units": ["ensure"],
